@@ -2,6 +2,8 @@ import FgaVerif.Proofs.Merge
 import FgaVerif.Proofs.MergeValues
 import FgaVerif.Proofs.MergeAttr
 import FgaVerif.Proofs.MergeConds
+import FgaVerif.Proofs.MergeRelAttr
+import FgaVerif.Model.Utils
 /-! # C07 — module merge succeeds iff conflict-free (and C12: independently of the order of the files)
 
     Theorems about `Model/Merge.lean`, the port of `TransformModuleFilesToModel` (in its repaired form,
@@ -39,11 +41,16 @@ import FgaVerif.Proofs.MergeConds
       (name, expression, parameters, module) with the declaring file's name recorded; a name nobody
       declares is absent.
 
-    Not proved here: the module/file attribution of *relations* added by extensions
-    (`GetModuleForObjectTypeRelation`), and that a permutation
-    changes nothing but the order of type definitions on success; determinism of the error list is by
-    construction in the port (no map order exists in it).  Those are evaluated on the real code by the
-    oracles of C07 and C12. -/
+    * `merge_attributes_relations`, `merge_module_for_relation` — and every **relation** of every type
+      of the result carries the relation metadata of its declaration: of the base definition exactly as
+      declared, or of the `extend type` block that added it exactly as declared there (the extending
+      module, its type restrictions) with that file's name recorded; `GetModuleForObjectTypeRelation`
+      (ported in `Model/Utils.lean`) therefore answers the declaring module, falling back to the type's.
+
+    Not proved here: that a permutation changes nothing but the order of type definitions on success
+    (C12 proves it for names, rewrites and conditions); determinism of the error list is by
+    construction in the port (no map order exists in it) and evaluated on the real code by the oracles
+    of C07 and C12. -/
 namespace FgaVerif.Props.C07
 open FgaVerif.Model FgaVerif.Model.Listener FgaVerif.Model.Merge
 
@@ -493,6 +500,139 @@ theorem merge_conserves_rewrites (fs : List FileIn) (ver : String) (wf : FilesWF
         · exact Or.inl ⟨d, hd, r⟩
         · exact Or.inr ⟨d, hperm.mem_iff.2 hd, r⟩
     · cases h
+
+theorem relMetaOf_setTypeFile (td : TypeDef) (f : String) : relMetaOf (setTypeFile td f) = relMetaOf td := by
+  unfold setTypeFile relMetaOf
+  cases hmd : td.md with
+  | none => simp [hmd]
+  | some m => simp
+
+theorem baseDefs_extwf {fs : List FileIn} (wf : FilesWF fs) : ∀ d ∈ fs.flatMap fileBaseDefs, ExtWF d := by
+  intro d hd
+  obtain ⟨f, hf, hdf⟩ := List.mem_flatMap.1 hd
+  unfold fileBaseDefs at hdf
+  split at hdf
+  · rename_i m e hout
+    exact wf.relMeta f hf m e hout d (baseDefs_mem e m.types 0 d hdf)
+  · simp at hdf
+
+/-- **relations are attributed to their declaration**: on success every relation `k` of every type `n`
+    of the result carries relation metadata, and it is the metadata of a declaration of `k` for `n` in
+    the files — of the base definition of `n` exactly as declared (module, restrictions, no file), or of
+    an `extend type n` block in file `f` exactly as declared there (the extending module, its
+    restrictions) with `f`'s name recorded as the source file -/
+theorem merge_attributes_relations (fs : List FileIn) (ver : String) (wf : FilesWF fs) (m : Model)
+    (h : merge fs ver = .ok m) (n k : String) (hv : (valNow m.types n k).isSome = true) :
+    ∃ rm', metaNow m.types n k = some rm' ∧
+      ((∃ d ∈ fs.flatMap fileBaseDefs, d.name = n ∧ AList.find? k (relMetaOf d) = some rm') ∨
+       (∃ f ∈ fs, ∃ e ∈ fileExtDefs f, e.name = n ∧ k ∈ AList.keys e.relations ∧
+          ∃ rm, AList.find? k (relMetaOf e) = some rm ∧ rm' = withFile f.name rm)) := by
+  have hcf := (merge_ok_iff_conflict_free fs ver wf).1 ⟨m, h⟩
+  have hclean : filesClean fs [] [] = true :=
+    (filesClean_iff fs [] []).2 ⟨hcf.modules, by simp, hcf.types, by simp, hcf.conds⟩
+  unfold merge at h
+  split at h
+  · cases h
+  · rename_i st hcol
+    have hrc := collect_raw fs {} st [] (fun x => by simp [AList.contains, AList.find?]) hcol hclean
+    have hraw : st.rawTypeDefs = fs.flatMap fileRaw := by simpa using hrc.1
+    obtain ⟨_, hperm, _⟩ := collect_state fs {} st hcol (by simp [AList.SortedKeys])
+    simp only [List.flatMap_nil, List.nil_append] at hperm
+    obtain ⟨_, hewf⟩ := fileDefs_wf wf
+    have hR : ∀ t ∈ st.rawTypeDefs, t.md.isSome = true := by
+      intro t ht
+      rw [hraw] at ht
+      obtain ⟨f, hf, htf⟩ := List.mem_flatMap.1 ht
+      obtain ⟨td, htd, rfl⟩ := List.mem_map.1 htf
+      have hmod := hcf.modules f hf
+      unfold fileIsModule at hmod
+      unfold fileBaseDefs at htd
+      split at hmod
+      · simp_all
+      · simp_all
+      · rename_i m' e' hout
+        simp only [hout] at htd
+        exact setTypeFile_md td f.name (md_of_modName td (hmod.1 td htd))
+    have hE : ∀ x ∈ st.extended, ∀ e ∈ x.2, ExtWF e ∧ (AList.keys e.relations).Nodup := by
+      intro x hx e he
+      have : e ∈ st.extended.flatMap (·.2) := List.mem_flatMap.2 ⟨x, hx, he⟩
+      have := hewf e (hperm.mem_iff.1 this)
+      exact ⟨this.2, this.1⟩
+    obtain ⟨st2, E2, g1, g2, _, _, g5, _⟩ := applyAll_spec st.extended st (fun n k => k ∈ curKeys st.rawTypeDefs n) hR
+      (fun x hx e he => (hE x hx e he).1) (fun _ _ => Iff.rfl)
+    rw [g1] at h
+    simp only at h
+    split at h
+    · rename_i hemp
+      simp only [MergeOutcome.ok.injEq] at h
+      subst h
+      have hst2 : st2.errors = [] := by simpa using hemp
+      have hE2 : E2 = [] := by rw [g2] at hst2; exact (List.append_eq_nil_iff.1 hst2).2
+      have hcl := g5.1 hE2
+      -- the invariant holds after the first loop: base definitions keep their declared metadata
+      have hbase : AttrInv (fs.flatMap fileBaseDefs) [] st.rawTypeDefs := by
+        intro n k hsome
+        rw [hraw] at hsome ⊢
+        unfold valNow at hsome
+        unfold metaNow
+        cases hf : (fs.flatMap fileRaw).find? (fun t => t.name == n) with
+        | none => simp [hf] at hsome
+        | some t =>
+          simp only [hf] at hsome ⊢
+          have htm := List.mem_of_find?_eq_some hf
+          have htn : t.name = n := by simpa using List.find?_some hf
+          obtain ⟨f, hf', htf⟩ := List.mem_flatMap.1 htm
+          obtain ⟨d, hd, rfl⟩ := List.mem_map.1 htf
+          have hdm : d ∈ fs.flatMap fileBaseDefs := List.mem_flatMap.2 ⟨f, hf', hd⟩
+          rw [setTypeFile_relations] at hsome
+          rw [relMetaOf_setTypeFile]
+          obtain ⟨v, hv⟩ := Option.isSome_iff_exists.1 hsome
+          have hmem := find?_some_mem k v _ hv
+          have hs := baseDefs_extwf wf d hdm (k, v) hmem
+          obtain ⟨rm, hrm⟩ := Option.isSome_iff_exists.1 hs
+          exact ⟨rm, hrm, Or.inl ⟨d, hdm, by rw [← setTypeFile_name d f.name]; exact htn, hrm⟩⟩
+      obtain ⟨st2', f1, f2⟩ := applyAll_relattr (fs.flatMap fileBaseDefs) st.extended [] st
+        (fun n k => k ∈ curKeys st.rawTypeDefs n) hR hE (fun _ _ => Iff.rfl) hcl hbase
+      have : st2' = st2 := by rw [g1] at f1; simp only [Except.ok.injEq] at f1; exact f1.symm
+      subst this
+      obtain ⟨rm', hrm', hsrc⟩ := f2 n k hv
+      refine ⟨rm', hrm', ?_⟩
+      rcases hsrc with hb | ⟨p, hp, hpn, hpk, rm, hrm, heq⟩
+      · exact Or.inl hb
+      · right
+        simp only [List.nil_append] at hp
+        obtain ⟨x, hx, hpx⟩ := List.mem_flatMap.1 hp
+        obtain ⟨e, he, rfl⟩ := List.mem_map.1 hpx
+        rcases collect_extended_src fs {} st hcol x hx e he with ⟨x0, hx0, _⟩ | ⟨f, hf, hfn, hfe⟩
+        · simp at hx0
+        · exact ⟨f, hf, e, hfe, hpn, hpk, rm, hrm, by rw [hfn]; exact heq⟩
+    · cases h
+
+/-- … **also via `GetModuleForObjectTypeRelation`**: for a relation of a type of the result the utility
+    answers the module of the relation's declaration (the extending module for a relation added by an
+    extension), falling back to the type's module when the declaration carries none -/
+theorem merge_module_for_relation (fs : List FileIn) (ver : String) (wf : FilesWF fs) (m : Model)
+    (h : merge fs ver = .ok m) (n k : String) (t : TypeDef)
+    (ht : m.types.find? (fun t => t.name == n) = some t) (hk : AList.contains k t.relations = true) :
+    ∃ declared : String,
+      moduleForRelation t k = some (if declared == "" then (t.md.getD {}).module else declared) ∧
+      ((∃ d ∈ fs.flatMap fileBaseDefs, d.name = n ∧ ∃ rm, AList.find? k (relMetaOf d) = some rm ∧ declared = rm.module) ∨
+       (∃ f ∈ fs, ∃ e ∈ fileExtDefs f, e.name = n ∧ k ∈ AList.keys e.relations ∧
+          ∃ rm, AList.find? k (relMetaOf e) = some rm ∧ declared = rm.module)) := by
+  have hv : (valNow m.types n k).isSome = true := by unfold valNow; rw [ht]; exact hk
+  obtain ⟨rm', hrm', hsrc⟩ := merge_attributes_relations fs ver wf m h n k hv
+  have hfind : AList.find? k (t.md.getD {}).relations = some rm' := by
+    simp only [metaNow, ht, relMetaOf] at hrm'
+    cases hmd : t.md with
+    | none => rw [hmd] at hrm'; simp [AList.find?] at hrm'
+    | some tm => rw [hmd] at hrm'; simpa using hrm'
+
+  refine ⟨rm'.module, ?_, ?_⟩
+  · unfold moduleForRelation
+    simp only [hk, Bool.not_true, Bool.false_eq_true, if_false, hfind]
+  · rcases hsrc with ⟨d, hd, hdn, hdm⟩ | ⟨f, hf, e, he, hen, hek, rm, hrm, heq⟩
+    · exact Or.inl ⟨d, hd, hdn, rm', hdm, rfl⟩
+    · exact Or.inr ⟨f, hf, e, he, hen, hek, rm, hrm, by rw [heq]; rfl⟩
 
 theorem tyAttr_setTypeFile (td : TypeDef) (f : String) :
     tyAttr (setTypeFile td f) = td.md.map (fun md => (md.module, f)) := by
